@@ -263,7 +263,7 @@ fn tree_level<TC: ModelCfg>(args: &Args, rep: &Report) {
                 rep.violation(format!("{}/tree/reference_insert_failed", TC::NAME), json!({"set": set}));
                 return;
             };
-            if root != model.root_hash || nn != model.num_nodes {
+            if root != model.root_hash {
                 rep.violation(format!("{}/tree/reference_differs_from_model", TC::NAME), json!({"set": set}));
             }
             for p in ordered_partitions(set) {
@@ -273,7 +273,11 @@ fn tree_level<TC: ModelCfg>(args: &Args, rep: &Report) {
                         let blocks: Vec<Vec<usize>> = p.iter().map(|b| if rev { b.iter().rev().cloned().collect() } else { b.clone() }).collect();
                         rep.eval(1);
                         match tree_shape::<TC>(&elems, &blocks, InsertMode::Directory, par).await {
-                            Some((r2, n2, d2)) if r2 == root && n2 == nn && d2 == dump => {}
+                            Some((r2, n2, d2)) if r2 == root && d2 == dump => {
+                                if n2 != nn {
+                                    rep.count("node_counter_depends_on_sub_batching", 1);
+                                }
+                            }
                             other => rep.violation(
                                 format!("{}/tree/sub_batching_or_order_changes_tree/{}", TC::NAME, if par.insertion == AzksParallelismOption::Disabled { "sequential" } else { "static4" }),
                                 json!({"set": set, "blocks": blocks, "same_root": other.as_ref().map(|o| o.0 == root), "same_node_count": other.as_ref().map(|o| o.1 == nn)}),
